@@ -45,6 +45,25 @@ func genScenario(id string, g *GenCase, mustSucceed bool) *Scenario {
 			called[n] = true
 		}
 	}
+	if g.Overlap {
+		// the case's own plugin is called as same<Plugin>; takewhile (default prefix deriveTakeWhile, longer than
+		// any of the 15 plugins' and never called here) listens on the proper prefix "same"
+		own := ""
+		for n := range called {
+			if strings.ToLower(strings.TrimPrefix(n, "derive")) == g.P {
+				own = n
+			}
+		}
+		if own != "" {
+			renamed := "same" + strings.TrimPrefix(own, "derive")
+			for k, v := range sc.Files {
+				if strings.HasPrefix(k, "c/") {
+					sc.Files[k] = regexp.MustCompile(`\b`+own+`\b`).ReplaceAllString(v, renamed)
+				}
+			}
+			sc.Flags = []string{"-pluginprefix=" + g.P + "=" + renamed + ",takewhile=same"}
+		}
+	}
 	if g.Flagged {
 		var ov []string
 		for n := range called {
@@ -142,10 +161,10 @@ func (m *genMinimiser) class(g *GenCase, chk *Checker) (string, error) {
 
 func (m *genMinimiser) minimise(g *GenCase, cls string, chk *Checker) (*GenCase, error) {
 	cur := *g
-	if cur.Flagged {
+	if cur.Flagged || cur.Overlap {
 		// the flags are part of the witness only if the failure needs them
 		plain := cur
-		plain.Flagged = false
+		plain.Flagged, plain.Overlap = false, false
 		if got, err := m.class(&plain, chk); err != nil {
 			return nil, err
 		} else if got == cls {
@@ -357,6 +376,10 @@ func checkC01(c *core.Ctx) error {
 		if g.T.Size() <= 1 && (g.F == "body" || g.F == "nested") {
 			g.Flagged = true
 			flagged = append(flagged, g)
+			if g.F == "body" {
+				g.Flagged, g.Overlap = false, true
+				flagged = append(flagged, g)
+			}
 		}
 	}
 	stF, outsF, err := judgeGenCases(c, bin, flagged, true, func(why string) bool { return !strings.Contains(why, "(C09)") }, "c01f")
